@@ -431,7 +431,7 @@ pub fn replay_case(j: &J) -> (bool, String) {
         let level = j.int("level").unwrap_or(0) as u32;
         let exe = std::env::current_exe().unwrap();
         let mut ds = Vec::new();
-        for _ in 0..3 {
+        for _ in 0..12 {
             let o = std::process::Command::new(&exe).args(["digest", &w.bits().to_string(), &level.to_string(), j.str("program").unwrap_or("")]).output();
             ds.push(o.map(|o| String::from_utf8_lossy(&o.stdout).trim().to_string()).unwrap_or_default());
         }
